@@ -396,8 +396,12 @@ class Grid(object):
                       + f" data has {ncols}, but expects {self.ncols}."
             raise ValueError(errmess)
 
-        self._data = np.clip(_value, self.mindata,
-                             self.maxdata).astype(self.dtype)
+        # Clip only if bounds are set (clipping integers with infinite
+        # float bounds converts them to float64 and corrupts large values)
+        if self.mindata > -np.inf or self.maxdata < np.inf:
+            _value = np.clip(_value, self.mindata, self.maxdata)
+
+        self._data = _value.astype(self.dtype)
 
     @property
     def nodata(self):
@@ -508,8 +512,11 @@ class Grid(object):
                       + f" expecting {nval}."
             raise ValueError(errmess)
 
-        self._data = np.clip(data.reshape((self.nrows, self.ncols)),
-                             self.mindata, self.maxdata).astype(self.dtype)
+        data = data.reshape((self.nrows, self.ncols))
+        if self.mindata > -np.inf or self.maxdata < np.inf:
+            data = np.clip(data, self.mindata, self.maxdata)
+
+        self._data = data.astype(self.dtype)
 
     def to_dict(self):
         """ Export grid metadata to json """
